@@ -98,6 +98,8 @@ pub struct EventSender<'a> {
     token: usize,
     // the select coroutine can use it to pass extra data to the caller
     extra: AtomicUsize,
+    // how many subscribe calls are still running in the kernel
+    kernel: AtomicUsize,
     // the mpsc event queue to collect the events
     cqueue: &'a Cqueue,
 }
@@ -121,6 +123,10 @@ impl EventSender<'_> {
 
 impl EventSource for EventSender<'_> {
     fn subscribe(&mut self, co: CoroutineImpl) {
+        // once the event is pushed the poller can resume the coroutine, which
+        // may finish and free this sender and the cqueue while we are still
+        // waking the poller up: the drop of the sender waits for us
+        self.kernel.fetch_add(1, Ordering::Acquire);
         self.cqueue.ev_queue.push(Event {
             id: self.id,
             token: self.token,
@@ -131,6 +137,8 @@ impl EventSource for EventSender<'_> {
         if let Some(w) = self.cqueue.to_wake.take() {
             w.unpark();
         }
+        // must be the last access
+        self.kernel.fetch_sub(1, Ordering::Release);
     }
 
     fn yield_back(&self, _cancel: &'static Cancel) {
@@ -146,6 +154,10 @@ impl EventSource for EventSender<'_> {
 impl Drop for EventSender<'_> {
     // when the select coroutine finished will trigger this drop
     fn drop(&mut self) {
+        // wait the kernel finish
+        while self.kernel.load(Ordering::Acquire) != 0 {
+            crate::park::wait_kernel_yield();
+        }
         self.cqueue.ev_queue.push(Event {
             id: self.id,
             token: self.token,
@@ -188,6 +200,7 @@ impl Cqueue {
             id: self.total.load(Ordering::Relaxed),
             token,
             extra: 0.into(),
+            kernel: 0.into(),
             cqueue: self,
         };
         let h = unsafe { spawn_unsafe(move || f(sender)) };
